@@ -313,7 +313,8 @@ def check_rc(res, case, ctx):
     res.traces += 1
     if verdict is not None:
         record_failure(res, verdict[0], case, rc_features(case), verdict[1], verdict[2], tb)
-    if nontrivial and not res.samples:
+    if nontrivial and case['op'] not in ctx.sampled:
+        ctx.sampled.add(case['op'])
         res.sample({'case': case, 'expected': list(expected), 'observed': list(obs) if obs else None,
                     'verdict': 'ok' if verdict is None else verdict[0]})
 
@@ -326,6 +327,7 @@ class Ctx:
         self.tmp = None
         self.cache = {}
         self.open_files = []
+        self.sampled = set()
 
     def genome_context(self, ref):
         L = lib()
@@ -464,7 +466,8 @@ def check_st(res, case, ctx):
     res.traces += 1
     if verdict is not None:
         record_failure(res, verdict[0], case, st_features(case), verdict[1], verdict[2], tb)
-    if nontrivial and not res.samples:
+    if nontrivial and case['op'] not in ctx.sampled:
+        ctx.sampled.add(case['op'])
         res.sample({'case': case, 'expected': list(expected), 'observed': list(obs) if obs else None,
                     'verdict': 'ok' if verdict is None else verdict[0]})
 
@@ -556,7 +559,8 @@ def check_tr(res, case, ctx):
     res.traces += 1
     if verdict is not None:
         record_failure(res, verdict[0], case, tr_features(case), verdict[1], verdict[2], tb)
-    if nontrivial and not res.samples:
+    if nontrivial and case['op'] not in ctx.sampled:
+        ctx.sampled.add(case['op'])
         res.sample({'case': case, 'expected': list(expected), 'observed': list(obs) if obs else None,
                     'verdict': 'ok' if verdict is None else verdict[0]})
 
@@ -829,7 +833,8 @@ def _profiles(max_rows, total, min_rows=1):
     return out
 
 
-def shards(tier, seed):
+def units(tier, seed):
+    """fine-grained work units (each a complete sub-space); shards() packs them into few equal-cost shards"""
     out = []
 
     def add(sec, **kw):
@@ -914,19 +919,76 @@ def shards(tier, seed):
         big = [[1, 2], [2, 1]]
         for i in range(64):
             add('tr_batch', profiles=big, firsts=[i])
-    # interleave the sections (round robin) so that a wall cap cuts evenly, the pool stays busy with mixed
-    # costs and the first merged samples come from different sections; the seed rotates the order
-    order = ['flat', 'st_sets', 'tr_single', 'ragged', 'st_small', 'tr_batch', 'profiles']
-    queues = [[d for d in out if d['sec'] == sec] for sec in order]
-    mixed = []
-    while any(queues):
-        for q in queues:
-            if q:
-                mixed.append(q.pop(0))
+    return out
+
+
+def unit_cost(d):
+    """rough cost estimate of a unit in milliseconds of CPU (only used to balance the shards)"""
+    sec = d['sec']
+    if sec == 'flat':
+        n = sum(10 ** (L - len(d['prefix'])) for L in d['lengths'] if L >= len(d['prefix']))
+        return n * 3.7 * 0.25
+    if sec == 'ragged':
+        n = sum(10 ** (sum(p) - len(d['prefix'])) for p in d['profiles'] if sum(p) >= len(d['prefix']))
+        return n * (9.5 * 0.8 if d['forms'] == 'all' else 2.4 * 0.6)
+    if sec == 'profiles':
+        k = len(PROFILE_LENGTHS[d['tier']])
+        n = k ** d['n_rows'] if d['first'] is None else k ** (d['n_rows'] - 1)
+        return n * 3 * 11 * 0.9
+    if sec == 'st_small':
+        a = 10 if d['alphabet'] == 'full' else 5
+        rest = d['ref_len'] - len(d['prefix'])
+        refs = a ** rest
+        upper_refs = 5 ** rest if (d['prefix'].isupper() or not d['prefix']) else 0
+        ivs = (d['ref_len'] + 1) * (d['ref_len'] + 2)
+        return refs * (ivs + 1) * 2.8 * 1.3 + upper_refs * ivs * 4.5
+    if sec == 'st_sets':
+        n = len(STRANDED6)
+        if d['first'] is None:
+            return 40.0
+        if d['part'] == 'short':
+            return (n + 1) * (8 * 1.3 + 4 * 4.5)
+        m, of = d['part'][1], d['part'][2]
+        js = [j for j in range(n) if j % of == m]
+        cost = len(js) * n * 4 * 1.3
+        if d['apis'] == 'all':
+            cost += sum(n - j for j in js if j >= d['first']) * 2 * 4.5
+        return cost
+    if sec == 'tr_single':
+        k = d['n_codons']
+        if k == 1:
+            return 3600 * 0.35
+        if k == 2:
+            return len(d['firsts']) * 64 * 13 * 0.35
+        return len(d['firsts']) * 64 ** (k - 1) * 2 * 0.4
+    if sec == 'tr_batch':
+        per_first = sum(64 ** (sum(p) - 1) * (4 if sum(p) <= 2 else 1) for p in d['profiles'] if sum(p) >= 1)
+        return len(d['firsts']) * per_first * 0.43
+    raise ValueError(sec)
+
+
+N_SHARDS = {'quick': 32, 'thorough': 48}
+
+
+def shards(tier, seed):
+    """Pack the units into N_SHARDS[tier] shards of (estimated) equal cost: longest unit first, always into the
+    currently lightest shard.  Deliberately few shards: the pool retires a worker after 40 tasks."""
+    us = units(tier, seed)
+    order = sorted(range(len(us)), key=lambda i: (-unit_cost(us[i]), i))
+    n = N_SHARDS[tier]
+    bins = [{'tier': tier, 'seed': seed, 'shard': b, 'est_ms': 0.0, 'units': []} for b in range(n)]
+    for i in order:
+        b = min(bins, key=lambda x: (x['est_ms'], x['shard']))
+        b['units'].append(us[i])
+        b['est_ms'] += unit_cost(us[i])
+    for b in bins:
+        # inside a shard: cheap units first, so that every section contributes early
+        b['units'].sort(key=lambda d: (unit_cost(d), d['sec']))
+        b['est_ms'] = round(b['est_ms'])
     if seed:
-        k = seed % len(mixed)
-        mixed = mixed[k:] + mixed[:k]
-    return mixed
+        k = seed % n
+        bins = bins[k:] + bins[:k]
+    return bins
 
 
 def run_shard(desc, deadline):
@@ -934,11 +996,14 @@ def run_shard(desc, deadline):
     M.cross_check_with_biopython(2)          # model tables vs Biopython; AssertionError = harness error
     ctx = Ctx()
     try:
-        for i, case in enumerate(SECTIONS[desc['sec']](desc)):
-            if i % 32 == 0 and deadline.expired():
-                res.capped = True
+        for unit in desc['units']:
+            for i, case in enumerate(SECTIONS[unit['sec']](unit)):
+                if i % 32 == 0 and deadline.expired():
+                    res.capped = True
+                    break
+                check_case(res, case, ctx)
+            if res.capped:
                 break
-            check_case(res, case, ctx)
     finally:
         ctx.close()
     return res
